@@ -1033,6 +1033,20 @@ add({"name": "copy_hfe", "file": "dfs/img_hfe.cc",
                (r"(while \(begin != end\))", r"\1 COPY_HFE_LOOP_CONTRACT", 1),
                (r"(for \(int bitnum = 0; bitnum < 8; \+\+bitnum\))", r"COPY_HFE_INNER_GHOST \1 COPY_HFE_INNER_CONTRACT", 1)],
      "dropped": ["diagnostic texts"]})
+add({"name": "hfe_encodings", "file": "dfs/img_hfe.cc", "anchor": r"#define ISOIBM_MFM_ENCODING\s+0x00", "region_end": r"\n\s*\n#define OPCODE_MASK",
+     "toplevel": True, "sig": "", "rules": []})
+add({"name": "hfe_geometry_tail", "file": "dfs/img_hfe.cc",
+     "anchor": r"(?:if \(!sectors_per_track\)[^;]*;\s*)?assert\(header_\.number_of_track > 0\);", "region_end": r"return result;\s*\}\s*bool HfeFile::connect_drives",
+     "sig": "static void hfe_geometry_tail(struct HfeFileM *self, struct opt_uint_ sectors_per_track)",
+     "pre": "#define header_ (self->header_)\n", "post": "#undef header_\n",
+     "rules": [(r"\bassert\(", "VERIF_ASSERT(", ">=0"), (r"sectors_per_track\.has_value\(\)", "sectors_per_track.has", ">=0"),
+               (r"if \(!sectors_per_track\)", "if (!sectors_per_track.has)", ">=0"),
+               (r"DFS::Encoding enc;", "int enc = 0;", 1), (r"DFS::Encoding::(\w+)", r"Encoding_\1", ">=2"),
+               (r"std::ostringstream ss;.*?throw UnsupportedHfeFile\(ss\.str\(\)\);", "{ VERIF_THROW(Other, 0); return; }", 1),
+               (r'throw UnsupportedHfeFile\("[^"]*"\);', "{ VERIF_THROW(Other, 0); return; }", ">=0"),
+               (r"\*sectors_per_track", "OPT_DEREF(sectors_per_track)", 1),
+               (r"geom_ = DFS::Geometry\(([^;]*)\);", r"geom_set(self, \1);", 1)],
+     "dropped": ["diagnostic text"]})
 add({"name": "hfe_block_sizes", "file": "dfs/img_hfe.cc", "anchor": r"constexpr std::vector<byte>::size_type side_block_size = ",
      "region_end": r"const auto max_offset", "toplevel": True, "sig": "",
      "rules": [(r"constexpr std::vector<byte>::size_type side_block_size = (\w+);", r"enum { side_block_size = \1 };", 1),
